@@ -7,7 +7,7 @@ use crate::header::HeaderSlice;
 use crate::unique_arc::UniqueArc;
 use crate::vrt;
 use crate::vrt::{any_count, base, cnt, cw, data, mk, rd, set_cnt, Probe, Tr, Tr16, Tr64, Tr8, TrIter, Zd, S1, S16a16, S33a32,
-                 S64a64, S9a8, S4a4, Z};
+                 S64a64, S9a8, S4a4, S3, S2a2, Z};
 use crate::{ArcBorrow, OffsetArc};
 use core::alloc::Layout;
 use core::mem::MaybeUninit;
@@ -251,6 +251,30 @@ gproof! { fn c11_arc_from_raw_cast_to_dyn() {
     assert!(vrt::vsize(&d) == core::mem::size_of::<Tr8>());
     assert!(vrt::drops() == 0 && vrt::ga(1) && vrt::gd(0));
     core::mem::forget(d);
+} }
+
+#[repr(transparent)]
+pub(crate) struct S1w(pub S1);
+impl Probe for S1w {
+    fn probe(&self) -> u8 {
+        (self.0).0[0]
+    }
+}
+// @h props=C11,C14 fuc=Arc::ptr_eq,Arc::from_raw note="two trait-object handles recovered from ONE allocation through different casts (different vtables): still the same allocation; a handle to another block of the same type is not"
+gproof! { fn c11_ptr_eq_dyn_same_block_two_vtables() {
+    let n = any_count();
+    kani::assume(n > 1);
+    let a = mk(S1::any(), n);
+    let b0 = base(&a);
+    let raw = Arc::into_raw(a);
+    let d1: Arc<dyn Probe> = unsafe { Arc::from_raw(raw as *const dyn Probe) };
+    let d2: Arc<dyn Probe> = unsafe { Arc::from_raw(raw as *const S1w as *const dyn Probe) };
+    let other = mk_dyn(S1::any());
+    assert!(base(&d1) == b0 && base(&d2) == b0 && cnt(&d2) == n);
+    assert!(Arc::ptr_eq(&d1, &d2) && Arc::ptr_eq(&d2, &d1) && !Arc::ptr_eq(&d1, &other) && !Arc::ptr_eq(&other, &d2));
+    core::mem::forget(d1);
+    core::mem::forget(d2);
+    core::mem::forget(other);
 } }
 
 // @h props=C01,C04,C11 fuc=Arc::into_raw_offset,Arc::from_raw_offset
@@ -580,6 +604,69 @@ gproof! { fn c08_arc_make_mut__zst_clone_counted() {
     core::mem::forget(a);
 } }
 
+// C08 over HISTORIES with a mix of handle kinds: the one other owner is produced by the given
+// handle kind's own clone operation. If it is still alive when the writer calls make_mut the writer is
+// redirected and the other owner keeps observing the old value; if it was released first the writer
+// is the sole owner again and writes in place without cloning. (Concrete history of 3-4 operations,
+// symbolic values; the per-operation contracts are asserted at every call on the way.)
+macro_rules! h_cow_history {
+    ($name:ident, $other:expr, $read:expr, $release:expr) => {
+        gproof! { fn $name() {
+            let (v0, w): (u32, u32) = (kani::any(), kani::any());
+            let mut a = Arc::new(vrt::Cc(v0));
+            let b0 = base(&a);
+            let other = ($other)(&a);
+            assert!(cnt(&a) == 2);
+            if kani::any() {
+                Arc::make_mut(&mut a).0 = w;
+                assert!(a.0 == w && base(&a) != b0 && cnt(&a) == 1 && vrt::clones() == 1 && vrt::ga(2) && vrt::gd(0));
+                assert!(($read)(&other) == v0 && vrt::glive_at(b0));
+                ($release)(other);
+                assert!(!vrt::g_live(b0) && vrt::gd(1) && a.0 == w);
+            } else {
+                ($release)(other);
+                assert!(cnt(&a) == 1 && vrt::gd(0));
+                Arc::make_mut(&mut a).0 = w;
+                assert!(a.0 == w && base(&a) == b0 && cnt(&a) == 1 && vrt::clones() == 0 && vrt::ga(1) && vrt::gd(0));
+            }
+            drop(a);
+            assert!(vrt::glive(0) && vrt::g_ok());
+        } }
+    };
+}
+// @h props=C08,C04 fuc=Arc::make_mut,Arc::clone,Arc::drop note="history: other owner from Arc::clone"
+h_cow_history!(c08_history__other_from_arc_clone, |a: &Arc<vrt::Cc>| a.clone(), |o: &Arc<vrt::Cc>| o.0, |o: Arc<vrt::Cc>| drop(o));
+// @h props=C08,C04 fuc=Arc::make_mut,OffsetArc::clone,OffsetArc::drop note="history: other owner from OffsetArc::clone"
+h_cow_history!(c08_history__other_from_offset_clone, |a: &Arc<vrt::Cc>| { let o = Arc::into_raw_offset(a.clone()); let o2 = o.clone(); drop(o); o2 }, |o: &OffsetArc<vrt::Cc>| o.0, |o: OffsetArc<vrt::Cc>| drop(o));
+// @h props=C08,C04 fuc=Arc::make_mut,Arc::with_raw_offset_arc,OffsetArc::clone_arc note="history: other owner from OffsetArc::clone_arc inside with_raw_offset_arc"
+h_cow_history!(c08_history__other_from_offset_clone_arc, |a: &Arc<vrt::Cc>| a.with_raw_offset_arc(|o| o.clone_arc()), |o: &Arc<vrt::Cc>| o.0, |o: Arc<vrt::Cc>| drop(o));
+// @h props=C08,C04 fuc=Arc::make_mut,Arc::borrow_arc,ArcBorrow::clone_arc note="history: other owner upgraded from an ArcBorrow"
+h_cow_history!(c08_history__other_from_borrow_clone_arc, |a: &Arc<vrt::Cc>| a.borrow_arc().clone_arc(), |o: &Arc<vrt::Cc>| o.0, |o: Arc<vrt::Cc>| drop(o));
+// @h props=C08,C04,C11 fuc=Arc::make_mut,Arc::into_raw,Arc::from_raw note="history: other owner is a leaked raw pointer"
+h_cow_history!(c08_history__other_is_raw_pointer, |a: &Arc<vrt::Cc>| Arc::into_raw(a.clone()), |p: &*const vrt::Cc| unsafe { (**p).0 }, |p: *const vrt::Cc| unsafe { drop(Arc::from_raw(p)) });
+// (an ArcUnion as the other owner exhausts CBMC's memory in a multi-operation harness; its clone and drop are under the C12/C04 per-operation contracts)
+
+// @h props=C08,C04 fuc=OffsetArc::make_mut,ArcBorrow::clone_arc note="history with the OffsetArc writer: other owner upgraded from a borrow of it"
+gproof! { fn c08_history__offset_writer_other_from_borrow() {
+    let (v0, w): (u32, u32) = (kani::any(), kani::any());
+    let mut o = Arc::into_raw_offset(Arc::new(vrt::Cc(v0)));
+    let other = o.borrow_arc().clone_arc();
+    let b0 = base(&other);
+    assert!(cnt(&other) == 2);
+    if kani::any() {
+        o.make_mut().0 = w;
+        assert!(o.0 == w && other.0 == v0 && cnt(&other) == 1 && vrt::clones() == 1 && vrt::ga(2));
+        drop(other);
+        assert!(!vrt::g_live(b0) && o.0 == w);
+    } else {
+        drop(other);
+        o.make_mut().0 = w;
+        assert!(o.0 == w && vrt::clones() == 0 && vrt::ga(1) && vrt::gd(0) && vrt::glive_at(b0));
+    }
+    drop(o);
+    assert!(vrt::glive(0) && vrt::g_ok());
+} }
+
 // @h props=C03,C04 fuc=Arc::with_raw_offset_arc,Arc::get_mut,Arc::is_unique note="lending a sole owner through with_raw_offset_arc does not cost it its uniqueness"
 gproof! { fn c03_arc_unique_after_with_raw_offset_arc() {
     let n = any_count();
@@ -706,6 +793,44 @@ gproof! { fn c09_unique_into_inner__tr16() {
     drop(v);
     assert!(vrt::drops() == 1);
 } }
+
+// payloads whose size is not a multiple of 8: the block is LARGER than count + payload (tail padding
+// of ArcInner), so a release path that rebuilds the layout by hand must pad it again
+macro_rules! h_try_unwrap_shape {
+    ($name:ident, $S:ident) => {
+        gproof! { fn $name() {
+            let n = any_count();
+            let val = $S::any();
+            let a = mk(val, n);
+            let (b0, c0) = (base(&a), cw(&a));
+            let req = vrt::g_req(b0);
+            assert!(!vrt::g_on() || (req.0 as u128 == vrt::spec_block(core::alloc::Layout::new::<$S>()).0 && req.0 % 8 == 0 && req.0 > 8 + core::mem::size_of::<$S>()));
+            match Arc::try_unwrap(a) {
+                Ok(v) => { assert!(n == 1 && v == val && vrt::gd(1) && !vrt::g_live(b0)); }
+                Err(a2) => { assert!(n != 1 && base(&a2) == b0 && cnt(&a2) == n && *a2 == val && vrt::gd(0)); core::mem::forget(a2); }
+            }
+            kani::cover!(n == 1, "moved out");
+        } }
+    };
+}
+macro_rules! h_into_inner_shape {
+    ($name:ident, $S:ident) => {
+        gproof! { fn $name() {
+            let val = $S::any();
+            let u = UniqueArc::new(val);
+            let v = UniqueArc::into_inner(u);
+            assert!(v == val && vrt::ga(1) && vrt::gd(1) && vrt::glive(0));
+        } }
+    };
+}
+// @h props=C09,C05 fuc=Arc::try_unwrap,UniqueArc::into_inner note="3-byte payload: block of 16 bytes, count + payload only 11"
+h_try_unwrap_shape!(c09_arc_try_unwrap__s3, S3);
+// @h props=C09,C05 fuc=Arc::try_unwrap,UniqueArc::into_inner note="1-byte payload"
+h_try_unwrap_shape!(c09_arc_try_unwrap__s1, S1);
+// @h props=C09,C05 fuc=UniqueArc::into_inner note="3-byte payload"
+h_into_inner_shape!(c09_unique_into_inner__s3, S3);
+// @h props=C09,C05 fuc=UniqueArc::into_inner note="2-byte, 2-aligned payload"
+h_into_inner_shape!(c09_unique_into_inner__s2a2, S2a2);
 
 // @h props=C09 fuc=Arc::unwrap_or_clone
 gproof! { fn c09_arc_unwrap_or_clone__tr8() {
@@ -1100,6 +1225,42 @@ pub(crate) mod serde_h {
         core::mem::forget(keep);
     } }
 
+    // @h props=C17,C08 mod=serde_h fuc=Arc::deserialize_in_place note="serde's in-place entry point (what tuples, arrays and derived containers call) on a SHARED handle: the place ends up a fresh sole owner, the old block loses one owner and its value is untouched; Err leaves the place as it was"
+    gproof! { fn c17_arc_deserialize_in_place_shared() {
+        let n = vrt::any_count();
+        kani::assume(n > 1);
+        let v0: u32 = kani::any();
+        let mut place = vrt::mk(Dp(v0), n);
+        let (b0, c0, p0) = (base(&place), vrt::cw(&place), Arc::as_ptr(&place));
+        let a0 = vrt::g_allocs();
+        let outcome = any_de();
+        let r: Result<(), E> = Deserialize::deserialize_in_place(De { outcome }, &mut place);
+        match (r, outcome) {
+            (Ok(()), Ok(x)) => {
+                assert!(place.0 == x && cnt(&place) == 1 && base(&place) != b0 && vrt::ga(a0 + 1) && vrt::gd(0));
+                assert!(vrt::rd(c0) == n - 1 && unsafe { (*p0).0 } == v0 && vrt::glive_at(b0));
+            }
+            (Err(e), Err(f)) => { assert!(e == f && base(&place) == b0 && cnt(&place) == n && place.0 == v0 && vrt::ga(a0) && vrt::gd(0)); }
+            _ => { assert!(false, "deserialize_in_place outcome does not follow the value's own deserializer"); }
+        }
+        kani::cover!(outcome.is_ok(), "ok path");
+        core::mem::forget(place);
+    } }
+
+    // @h props=C17 mod=serde_h fuc=Arc::deserialize_in_place note="sole owner: whether or not the block is reused, the place is a sole owner of the new value and nothing is leaked"
+    gproof! { fn c17_arc_deserialize_in_place_sole() {
+        let v0: u32 = kani::any();
+        let mut place = Arc::new(Dp(v0));
+        let outcome = any_de();
+        let r: Result<(), E> = Deserialize::deserialize_in_place(De { outcome }, &mut place);
+        match (r, outcome) {
+            (Ok(()), Ok(x)) => { assert!(place.0 == x && cnt(&place) == 1 && vrt::glive(1) && vrt::g_ok()); }
+            (Err(e), Err(f)) => { assert!(e == f && cnt(&place) == 1 && place.0 == v0 && vrt::glive(1)); }
+            _ => { assert!(false, "deserialize_in_place outcome does not follow the value's own deserializer"); }
+        }
+        core::mem::forget(place);
+    } }
+
     // @h props=C17,C03 mod=serde_h fuc=UniqueArc::deserialize
     gproof! { fn c17_unique_deserialize_fresh_owner_or_error() {
         let keep = Arc::new(0u8);
@@ -1131,6 +1292,7 @@ macro_rules! od_release {
             let h = ($mk)(n);
             tr::reset();
             drop(h);
+            assert!(!tr::od_plain_write_cuts_release_sequences(), "OD-DEFINITE a plain store to the count before any acquire, then destruction: the other owners' release sequences are cut, so their accesses do not happen-before the destruction");
             assert!(tr::od_dec_shape(), "OD-UNRECOGNISED release protocol shape");
             assert!(tr::od_dec_orders(n, $pd), "OD-dec: release-class RMW decrement; acquire before destruction; nothing after a non-final release");
             kani::cover!(n == 1, "last owner");
@@ -1157,6 +1319,7 @@ gproof! { #[kani::unwind(12)] fn c02_od_release__unique() {
     let u = UniqueArc::new(Tr8::new());
     tr::reset();
     drop(u);
+    assert!(!tr::od_plain_write_cuts_release_sequences(), "OD-DEFINITE a plain store to the count before any acquire, then destruction: the other owners' release sequences are cut, so their accesses do not happen-before the destruction");
     assert!(tr::od_dec_shape(), "OD-UNRECOGNISED release protocol shape");
     assert!(tr::od_dec_orders(1, 1), "OD-dec: release-class RMW decrement; acquire before destruction");
 } }
@@ -1284,6 +1447,9 @@ gproof! { #[kani::unwind(12)] fn c09_od_try_unwrap_orders() {
 #[kani::stub(alloc::alloc::alloc, crate::vrt::ghost_alloc)]
 #[kani::stub(alloc::alloc::dealloc, crate::vrt::ghost_dealloc)]
 #[kani::stub(alloc::alloc::dealloc_nonnull, crate::vrt::ghost_dealloc_nn)]
+#[kani::stub(alloc::alloc::realloc, crate::vrt::ghost_realloc)]
+#[kani::stub(alloc::alloc::realloc_nonnull, crate::vrt::ghost_realloc_nn)]
+#[kani::stub(alloc::alloc::alloc_zeroed, crate::vrt::ghost_alloc_zeroed)]
 fn c16_od_clone_overflow_single_rmw() {
     let n = vrt::overflow_count();
     let a = mk(S1::any(), n);
